@@ -20,7 +20,7 @@ def _run_chunk(jobs: list[dict], extra_env: dict | None = None) -> list[dict]:
     todo = list(jobs)
     while todo:
         env = dict(os.environ)
-        env['PYTHONPATH'] = f'/repo:{C.VERIF}'
+        env['PYTHONPATH'] = f'{C.REPO}:{C.VERIF}'
         env['PYTHONHASHSEED'] = '0'
         env['PYTHONDONTWRITEBYTECODE'] = '1'
         if extra_env:
